@@ -420,6 +420,15 @@ WORLDS = [
         fmts=["md5"],
     ),
     dict(id="levels-3-outer0", tree="levels", steps=[C("L1/L2/L3", "-h", "md5"), C("L1/L2", "-h", "xxh64"), C("L1", "-h", "md5")], fmts=["md5"]),
+    # the interrupted create runs at a nested root; the next commands run at the outer root, which loads that history as a child
+    dict(id="deep-at-A", tree="deep", steps=[C("A", "-h", "md5"), C("", "-h", "md5")], fmts=["md5"], at="A"),
+    dict(
+        id="levels-at-L2",
+        tree="levels",
+        steps=[C("L1/L2/L3", "-h", "md5"), C("L1/L2", "-h", "md5"), C("L1", "-h", "md5"), C("", "-h", "md5")],
+        fmts=["md5"],
+        at="L1/L2",
+    ),
     dict(id="prefix-Clips", tree="prefixnames", steps=[C("Clips", "-h", "md5"), C("", "-h", "md5"), C("", "-h", "md5")], fmts=["md5"]),
     dict(id="names-nested", tree="names", steps=[C("sp ace", "-h", "md5"), C(S.NFD, "-h", "c4"), C("", "-h", "md5", "-h", "c4")], fmts=["md5", "c4"]),
     dict(id="empty-g1", tree="emptyfolder", steps=[C("", "-h", "md5")], fmts=["md5"]),
@@ -518,12 +527,13 @@ def build_base(run, spec, n):
 
 def argv_for(copy_dir, b, variant, fmts):
     vn, spell, extra, tz = variant
-    root = os.path.join(copy_dir, "t")
+    at = b.spec.get("at")
+    root = os.path.join(copy_dir, "t", at) if at else os.path.join(copy_dir, "t")
     arg, cwd = root, copy_dir
     if spell == "slash":
         arg = root + os.sep
     elif spell == "rel":
-        arg = "t"
+        arg = os.path.join("t", at) if at else "t"
     elif spell == "dot":
         arg, cwd = ".", root
     hs = S.hargs(fmts)
@@ -900,8 +910,8 @@ def main():
         "drained, cut at 1 / half / inside a multi-byte character / last byte, or fully), or the first / last read, or the k-th "
         "executed source line of the package from the first effect on, or no crash; non-trivial = the child process really died at "
         "that point (os._exit or SIGKILL) in a world with at least one history that has >= 1 committed generation",
-        bound="17 worlds (quick) / 19 (thorough): 0, 1, 2, 3, 6, 11 prior generations, flat and nested up to 3 levels (child committed before "
-        "parent, parent with 0 prior generations, child younger than the parent's first generation), prefix-sibling / space / NFC / NFD / "
+        bound="19 worlds (quick) / 21 (thorough): 0, 1, 2, 3, 6, 11 prior generations, flat and nested up to 3 levels (child committed before "
+        "parent, parent with 0 prior generations, child younger than the parent's first generation, create interrupted at a nested root and continued at the outer root), prefix-sibling / space / NFC / NFD / "
         "XML-special / U+2028 names, empty tree, empty dirs, symlink, a 40-file tree whose manifest exceeds the 8 KiB write buffer, 1 MiB +-1 files, mixed format sets, -n, -sf, failed (exit 11) and "
         "ignore-pattern generations; 8 invocation variants (root absolute / trailing slash / relative / '.', repeated -h, -n, -v with "
         "XML-special author and comment, POSIX DST time zone, +13:45 zone): 1-2 per world (quick), all for worlds <= 2 histories and 4 for "
